@@ -174,6 +174,15 @@ func (e *Enc) runBody(fn *ssa.Function, con *FuncContract, ur *UnitResult) {
 			}
 			e.assume(tb.True(), t)
 		}
+		if extra := os.Getenv("GOVC_ASSUME"); extra != "" { // debugging aid: narrow the inputs
+			if ex, err := parseSpecExpr(extra); err == nil {
+				if t, err := env.evalBool(ex); err == nil {
+					e.assume(tb.True(), t)
+				} else {
+					fmt.Fprintln(os.Stderr, "GOVC_ASSUME:", err)
+				}
+			}
+		}
 		// vacuity guard: the precondition must be satisfiable
 		q := &Query{Name: e.ctx + "#cover:requires", Kind: "cover", NAssume: len(e.assumes), Goal: tb.True(), Cover: true}
 		e.queries = append(e.queries, q)
